@@ -46,6 +46,7 @@ impl Bench {
             stall_next_write: false,
             stall_next_flush: false,
             op_writes: 0,
+            zero_latched: false,
             last_write_partial: false,
             pend_write_info: None,
             pend_at_write: None,
